@@ -213,6 +213,29 @@ def main(ctx: Ctx) -> int:
             traces.append({"tid": len(traces) + 1, "kind": "text", "t": ["none"], "obs": obs, "text": text, "origin": fn, "shape": "bundled"})
             nb += 1
     cov["bundled_expressions"] = nb
+    # numbers whose exponent is not written in one piece with the mantissa (outside the grammar): refused, or read as the number meant
+    for text, meant in (("2.0 e-3*Tgas", "2.0e-3*Tgas"), ("2.0e -3*Tgas", "2.0e-3*Tgas"), ("1.5E 3*invT", "1.5e3*invT"), ("5 e-1*T32", "5e-1*T32"),
+                        ("1e5e3*user_x", None), ("3.0d0 d0*Tgas", None)):
+        obs = translate_real(text)
+        same = True
+        if obs["accepted"] and obs["valid"]:
+            if meant is None:
+                same = False          # there is no number this could mean
+            else:
+                ast = cexpr.parse(obs["out"])
+                for T in (20.0, 997.0):
+                    base = {"Tgas": T, "invT": 1.0 / T, "T32": T / 300.0, "user_x": 1.7}
+                    try:
+                        want = fortran_value(meant, dict(base, exp=math.exp, sqrt=math.sqrt, log=math.log, log10=math.log10, AB={}))
+                        got = cexpr.evaluate(ast, dict(base))
+                    except (KeyError, NameError, OverflowError, ZeroDivisionError, ValueError, SyntaxError):
+                        same = False
+                        break
+                    if not (want == got or abs(want - got) <= 1e-12 * max(abs(want), abs(got))):
+                        same = False
+                        break
+        obs["same_value"] = same
+        traces.append({"tid": len(traces) + 1, "kind": "text", "t": ["none"], "obs": obs, "text": text, "origin": "split literal", "shape": "split-literal"})
     v = validate_traces(ctx, "Trace_Expr.tla", "Trace_Expr.cfg", [{k: t[k] for k in ("tid", "kind", "t", "obs")} for t in traces], "expr", chunk=3000,
                         extra_top={"alias": alias})
     cov["traces_validated_against_impl"] = len(traces)
